@@ -28,6 +28,9 @@ SPARSE_Q = [
     # sector numbers with the top bit of the 32-bit entry set (grains 1.5 TiB into the file; with a footer the tables too)
     {"variant": "hosted", "grain": 8, "gtes": 4, "K": 2, "full": False, "data_base_min": 0xC0000000 + 24, "sel": 6},
     {"variant": "footer", "grain": 8, "gtes": 4, "K": 2, "full": False, "data_base_min": 0xFFFF0000, "sel": 6},
+    # small tables, many of them: a grain directory of more than 2^16 / 2^17 entries
+    {"variant": "hosted", "grain": 8, "gtes": 4, "K": 1 << 17, "full": False, "max_len": 1 << 20, "sel": 40},
+    {"variant": "footer", "grain": 8, "gtes": 4, "K": 1 << 18, "full": False, "max_len": 1 << 20, "sel": 80},
 ]
 COWD_Q = [
     {"variant": "cowd", "grain": 1, "gtes": 4096, "K": 2048, "full": False, "max_len": 1 << 20, "sel": 2},
@@ -256,10 +259,13 @@ def make_trace(tid, rng, nops=25, **opt):
     elif opt.get("many") in ("big", True):  # more grain tables than the 128-entry table cache holds
         v, grain, gtes, ng = rng.choice(["hosted", "footer"]), 8, 4, rng.randrange(600, 800)
         gbytes = grain * 512
+    if not opt.get("many") and rng.random() < 0.3:
+        # the last grain is the only one of its grain table (and, with grains of more than a sector, possibly a partial one)
+        ng = gtes * rng.randrange(1, max(2, min(4, 60 // gtes + 1))) + 1
     runs = opt.get("many") == "runs"
-    if runs:  # long runs of each kind of grain: 1 MiB grains (4 KiB grains and runs of several hundred for SE-sparse)
+    if runs:  # long runs of each kind of grain: 1 MiB grains (4 KiB grains and runs of 130-200 of them for SE-sparse: the trace specification's cost grows with the cells per request)
         v = rng.choice(["hosted", "footer", "cowd", "se"])
-        grain, gtes, ng = (8, 64 * rng.choice([1, 4]), rng.randrange(2000, 3000)) if v == "se" else (2048, 4096 if v == "cowd" else rng.choice([512, 100]), rng.randrange(48, 72))
+        grain, gtes, ng = (8, 64 * rng.choice([1, 4]), rng.randrange(500, 800)) if v == "se" else (2048, 4096 if v == "cowd" else rng.choice([512, 100]), rng.randrange(48, 72))
         gbytes = grain * 512
     npos = ng + 2
     fid, csalt = rng.randrange(0, 0x90), rng.randrange(1, 1 << 18) * 4096    # identity of this image (pattern file id, compressed-unit salt)
@@ -272,7 +278,7 @@ def make_trace(tid, rng, nops=25, **opt):
         k = rng.choice(kinds + ["D"])
         ents.append((k, pos.pop(0)) if k == "D" else (k, 0))
     if runs:
-        plan = diskprop.run_plan(rng, ng, kinds + ["Dr"], *((520, 700) if v == "se" else (17, 30)))
+        plan = diskprop.run_plan(rng, ng, kinds + ["Dr"], *((130, 200) if v == "se" else (17, 30)))
         pp, _ = diskprop.run_positions(plan, first=1)
         ents = [("D", pp[i]) if k in ("D", "Dr") else (k, 0) for i, k in enumerate(plan)]
     ngt = -(-ng // gtes)
@@ -303,6 +309,8 @@ def make_trace(tid, rng, nops=25, **opt):
         diskprop.whole_disk_ops(rec, rng, cap_b, gbytes, sectors_fn=s.read_sectors)
         nops = 6
     record.random_ops(rec, rng, cap_b, nops, unit=gbytes, big=(cap_b + 4096) if runs else min(40 * gbytes + 4096, 2 << 20), sectors_fn=s.read_sectors, ssize=512)
+    if opt.get("many") in ("mid", "big", True):
+        diskprop.twin_index_ops(rec, rng, cap_b, gbytes, gtes * gbytes)
     comp = v == "stream"
     timg = {"class": "cowd" if v == "cowd" else "se" if v == "se" else "sparse", "gtes": gtes, "cb": 1, "cap": ng,
             "gd": [bool(x) for x in present], "t": [("C" if (comp and k == "D") else k) for k, _ in ents], "p": [q for _, q in ents], "parent": False}
